@@ -504,7 +504,7 @@ def build_and_run(progs, jobs):
                 "".join('\t"%s/gen/%s"\n' % (MOD, f) for f in sorted(imports)), "\n".join(ctors), "\n".join(svc_entries), "\n".join(scope_entries)))
         for f in os.listdir(os.path.join(VERIF, "harness", "gen", "runner")):
             if f.endswith(".go"): shutil.copy(os.path.join(VERIF, "harness", "gen", "runner", f), mod)
-        open(os.path.join(mod, "go.mod"), "w").write("module %s\n\ngo 1.20\n\nrequire github.com/Workiva/frugal/lib/go v0.0.0\n\nreplace github.com/Workiva/frugal/lib/go => %s/lib/go\n" % (MOD, REPO))
+        open(os.path.join(mod, "go.mod"), "w").write("module %s\n\ngo 1.20\n\nrequire (\n\tgithub.com/Workiva/frugal/lib/go v0.0.0\n\tgithub.com/nats-io/nats-server/v2 v2.10.11\n\tgithub.com/nats-io/nats.go v1.33.1\n)\n\nreplace github.com/Workiva/frugal/lib/go => %s/lib/go\n" % (MOD, REPO))
         shutil.copy(os.path.join(REPO, "lib", "go", "go.sum"), os.path.join(mod, "go.sum"))
         rc, out, err = sh(["go", "build", "-o", "runner", "."], cwd=mod)
         if rc != 0:
